@@ -41,6 +41,8 @@ pub enum M {
     Map(Vec<(M, M)>),
     Struct(&'static str, Vec<(&'static str, M)>),
     StructVariant(&'static str, u32, &'static str, Vec<(&'static str, M)>),
+    /// only as the value of a struct field: the field is skipped (`#[serde(skip_serializing_if = …)]` calls `skip_field`), so it is absent from the image
+    Skipped,
     /// a value whose own Serialize implementation fails
     Fail,
     /// a value that picks its representation from `Serializer::is_human_readable` (like IpAddr, Uuid, …):
@@ -54,7 +56,7 @@ pub fn kind(m: &M) -> &'static str {
         M::U64(_) => "u64", M::U128(_) => "u128", M::F32(_) => "f32", M::F64(_) => "f64", M::Char(_) => "char", M::Str(_) => "string", M::Bytes(_) => "bytes", M::None | M::Some(_) => "option",
         M::Unit => "unit", M::UnitStruct(_) => "unit_struct", M::UnitVariant(..) => "unit_variant", M::NewtypeStruct(..) => "newtype_struct", M::NewtypeVariant(..) => "newtype_variant",
         M::Seq(_) => "seq", M::Tuple(_) => "tuple", M::TupleStruct(..) => "tuple_struct", M::TupleVariant(..) => "tuple_variant", M::Map(_) => "map", M::Struct(..) => "struct",
-        M::StructVariant(..) => "struct_variant", M::Fail => "failing-serialize", M::HumanReadableProbe => "is_human_readable-probe",
+        M::StructVariant(..) => "struct_variant", M::Skipped => "skipped-field", M::Fail => "failing-serialize", M::HumanReadableProbe => "is_human_readable-probe",
     }
 }
 
@@ -119,20 +121,28 @@ impl Serialize for M {
                 }
                 q.end()
             }
+            // like serde_derive: the announced length counts the fields that are not skipped
             M::Struct(n, fs) => {
-                let mut q = s.serialize_struct(n, fs.len())?;
+                let mut q = s.serialize_struct(n, fs.iter().filter(|(_, v)| !matches!(v, M::Skipped)).count())?;
                 for (k, v) in fs {
-                    q.serialize_field(k, v)?;
+                    match v {
+                        M::Skipped => q.skip_field(k)?,
+                        _ => q.serialize_field(k, v)?,
+                    }
                 }
                 q.end()
             }
             M::StructVariant(n, i, v, fs) => {
-                let mut q = s.serialize_struct_variant(n, *i, v, fs.len())?;
+                let mut q = s.serialize_struct_variant(n, *i, v, fs.iter().filter(|(_, v)| !matches!(v, M::Skipped)).count())?;
                 for (k, x) in fs {
-                    q.serialize_field(k, x)?;
+                    match x {
+                        M::Skipped => q.skip_field(k)?,
+                        _ => q.serialize_field(k, x)?,
+                    }
                 }
                 q.end()
             }
+            M::Skipped => s.serialize_unit(),
             M::Fail => Err(serde::ser::Error::custom("this value refuses to be serialized")),
             M::HumanReadableProbe => {
                 if s.is_human_readable() {
@@ -183,6 +193,9 @@ pub fn image(m: &M) -> Image {
     let fields = |fs: &Vec<(&'static str, M)>| -> Result<Value, Image> {
         let mut out = BTreeMap::new();
         for (k, x) in fs {
+            if let M::Skipped = x {
+                continue;
+            }
             match image(x) {
                 Image::Val(v) => {
                     out.insert(k.to_string(), v);
@@ -207,12 +220,14 @@ pub fn image(m: &M) -> Image {
             Ok(v) => Value::Int(v),
             Err(_) => return Image::MustFail,
         },
+        // widening a NaN need not keep its payload: any NaN is accepted for an f32 NaN; every other float is unchanged bit for bit
+        M::F32(x) if x.is_nan() => Value::Float(f64::from_bits(ANY_NAN)),
         M::F32(x) => Value::Float(*x as f64),
         M::F64(x) => Value::Float(*x),
         M::Char(c) => Value::String(c.to_string()),
         M::Str(s) => Value::String(s.clone()),
         M::Bytes(b) => Value::Vec(b.iter().map(|x| Value::Int(*x as i128)).collect()),
-        M::None | M::Unit | M::UnitStruct(_) => Value::None,
+        M::None | M::Unit | M::UnitStruct(_) | M::Skipped => Value::None,
         M::Some(x) => sub!(x),
         M::UnitVariant(_, _, v) => Value::String(v.to_string()),
         M::NewtypeStruct(_, x) => sub!(x),
@@ -268,6 +283,19 @@ pub fn image(m: &M) -> Image {
         // "coincides with the serde_json image": serde_json is a human-readable format
         M::HumanReadableProbe => Value::String("human readable".into()),
     })
+}
+
+/// marks "any NaN" in an expected image
+const ANY_NAN: u64 = 0x7ff8_dead_beef_0001;
+
+/// equality of images: floats by bit pattern ("floats are unchanged"), everything else as `same`
+fn same13(want: &Value, got: &Value) -> bool {
+    match (want, got) {
+        (Value::Float(w), Value::Float(g)) => if w.to_bits() == ANY_NAN { g.is_nan() } else { w.to_bits() == g.to_bits() },
+        (Value::Vec(x), Value::Vec(y)) => x.len() == y.len() && x.iter().zip(y).all(|(p, q)| same13(p, q)),
+        (Value::Map(x), Value::Map(y)) => x.len() == y.len() && x.iter().zip(y).all(|((k1, p), (k2, q))| k1 == k2 && same13(p, q)),
+        _ => same(want, got),
+    }
 }
 
 fn json_representable(m: &M) -> bool {
@@ -353,7 +381,7 @@ fn judge(ctx: &mut Ctx, m: &M, family: &str) {
     };
     match (&want, &got) {
         (Image::Val(w), Ok(g)) => {
-            if !same(w, g) {
+            if !same13(w, g) {
                 // name the innermost kind whose image is wrong
                 let culprit = culprit(m);
                 ctx.violation(format!("C13 unfaithful-image {culprit}"), "the serialized Value is not the structurally faithful image".to_string(), case(format!("{g:?}")));
@@ -416,7 +444,7 @@ fn culprit(m: &M) -> &'static str {
     let mut check = |x: &M| {
         if let Image::Val(w) = image(x) {
             if let Ok(Ok(g)) = guard(|| x.serialize(ValueSerializer)) {
-                if !same(&w, &g) {
+                if !same13(&w, &g) {
                     found = Some(kind(x)); // later (deeper / right-most) hits overwrite earlier ones
                 }
             }
@@ -458,6 +486,9 @@ fn scalars() -> Vec<M> {
     for x in [0u128, u64::MAX as u128, u64::MAX as u128 + 1, i128::MAX as u128 - 1, i128::MAX as u128, i128::MAX as u128 + 1, i128::MAX as u128 + 2, u128::MAX - 1, u128::MAX] { v.push(M::U128(x)); }
     for x in [0.0f32, -0.0, 0.1, 1.0e-45, 16777217.0, f32::MAX, f32::MIN_POSITIVE, f32::INFINITY, f32::NEG_INFINITY, f32::NAN, 3.3] { v.push(M::F32(x)); }
     for x in [0.0f64, -0.0, 0.1, 5e-324, f64::MAX, 1e300, f64::INFINITY, f64::NEG_INFINITY, f64::NAN, 2.5, 1.0] { v.push(M::F64(x)); }
+    // NaNs of every flavour: negative, with a payload, signalling
+    for b in [0xfff8_0000_0000_0000u64, 0x7ff8_0000_0000_beef, 0x7ff0_0000_0000_0001, 0xfff0_0000_0000_0001, 0x7fff_ffff_ffff_ffff, 0xffff_ffff_ffff_ffff, 0x7ff4_0000_0000_0000] { v.push(M::F64(f64::from_bits(b))); }
+    for b in [0xffc0_0000u32, 0x7fc0_beef, 0x7f80_0001] { v.push(M::F32(f32::from_bits(b))); }
     v
 }
 
@@ -477,6 +508,9 @@ fn wrap_all(inner: &M) -> Vec<M> {
         M::Struct("Alpha", vec![(f[0], inner.clone())]),
         M::Struct("Alpha", vec![(f[3], M::Bool(false)), (f[1], inner.clone()), (f[4], M::Str("z".into()))]),
         M::StructVariant("E", 3, "δ", vec![(f[2], inner.clone()), (f[0], M::U8(9))]),
+        // next to skipped fields
+        M::Struct("Alpha", vec![(f[5], M::Skipped), (f[1], inner.clone()), (f[4], M::Skipped)]),
+        M::StructVariant("E", 3, "δ", vec![(f[2], inner.clone()), (f[0], M::Skipped)]),
         // as a map key
         M::Map(vec![(inner.clone(), M::I8(1))]),
         M::Map(vec![(M::Str("first".into()), M::I8(0)), (inner.clone(), M::I8(1))]),
@@ -532,7 +566,7 @@ fn gen(rng: &mut Rng, depth: usize, sc: &[M]) -> M {
                 let k = FIELDS[rng.below(FIELDS.len())];
                 if !used.contains(&k) {
                     used.push(k);
-                    fs.push((k, gen(rng, d, sc)));
+                    fs.push((k, if rng.chance(1, 6) { M::Skipped } else { gen(rng, d, sc) }));
                 }
             }
             M::Struct(name, fs)
@@ -544,12 +578,116 @@ fn gen(rng: &mut Rng, depth: usize, sc: &[M]) -> M {
                 let k = FIELDS[rng.below(FIELDS.len())];
                 if !used.contains(&k) {
                     used.push(k);
-                    fs.push((k, gen(rng, d, sc)));
+                    fs.push((k, if rng.chance(1, 6) { M::Skipped } else { gen(rng, d, sc) }));
                 }
             }
             M::StructVariant(name, idx, var, fs)
         }
     }
+}
+
+mod derived_types {
+    use serde::Serialize;
+    use std::collections::BTreeMap;
+    #[derive(Serialize, Clone, Debug)]
+    pub struct Person {
+        pub name: String,
+        #[serde(skip_serializing_if = "Option::is_none")]
+        pub nickname: Option<String>,
+        #[serde(skip_serializing_if = "Vec::is_empty")]
+        pub tags: Vec<String>,
+        #[serde(skip)]
+        pub secret: u32,
+        #[serde(rename = "years-old")]
+        pub age: u8,
+        #[serde(flatten)]
+        pub extra: BTreeMap<String, i64>,
+        pub shape: Shape,
+        pub tagged: Tagged,
+        pub either: Either,
+        pub adjacent: Adjacent,
+        pub pair: (i8, Option<f64>),
+        pub unit: Marker,
+        pub wrapped: Meters,
+    }
+    #[derive(Serialize, Clone, Debug)]
+    pub enum Shape {
+        Point,
+        Circle(f64),
+        Rect(u32, u32),
+        Named {
+            #[serde(skip_serializing_if = "Option::is_none")]
+            label: Option<String>,
+            sides: u64,
+        },
+    }
+    #[derive(Serialize, Clone, Debug)]
+    #[serde(tag = "type")]
+    pub enum Tagged {
+        A { x: i32 },
+        B,
+        #[serde(rename = "see")]
+        C { y: Option<bool> },
+    }
+    #[derive(Serialize, Clone, Debug)]
+    #[serde(untagged)]
+    pub enum Either {
+        Num(i64),
+        Text(String),
+        Both { n: i64, t: String },
+        Nothing,
+    }
+    #[derive(Serialize, Clone, Debug)]
+    #[serde(tag = "t", content = "c", rename_all = "SCREAMING_SNAKE_CASE")]
+    pub enum Adjacent {
+        FirstOne(u8),
+        SecondOne { deep: Vec<Option<u16>> },
+        Third,
+    }
+    #[derive(Serialize, Clone, Debug)]
+    pub struct Marker;
+    #[derive(Serialize, Clone, Debug)]
+    pub struct Meters(pub f64);
+}
+
+/// Real `#[derive(Serialize)]` types using the common attributes (skip_serializing_if, skip, rename, flatten, internally / adjacently
+/// tagged and untagged enums): all data is JSON-representable, so the image must be serde_json's.
+fn derived(ctx: &mut Ctx) {
+    use derived_types::*;
+    let mut rng = ctx.rng.clone();
+    for _ in 0..ctx.tier.of(2_000, 20_000) {
+        let word = |rng: &mut Rng| match crate::pools::random_value(rng, "String") { Value::String(s) => s, _ => String::new() };
+        let p = Person {
+            name: word(&mut rng),
+            nickname: if rng.chance(1, 2) { None } else { Some(word(&mut rng)) },
+            tags: (0..rng.below(3)).map(|_| word(&mut rng)).collect(),
+            secret: rng.next() as u32,
+            age: rng.next() as u8,
+            extra: (0..rng.below(3)).map(|i| (format!("extra{i}"), rng.next() as i64)).collect(),
+            shape: match rng.below(5) { 0 => Shape::Point, 1 => Shape::Circle(rng.range(-1000, 1000) as f64 / 8.0), 2 => Shape::Rect(rng.next() as u32, 0), 3 => Shape::Named { label: None, sides: rng.next() }, _ => Shape::Named { label: Some(word(&mut rng)), sides: 3 } },
+            tagged: match rng.below(4) { 0 => Tagged::A { x: rng.next() as i32 }, 1 => Tagged::B, 2 => Tagged::C { y: None }, _ => Tagged::C { y: Some(rng.chance(1, 2)) } },
+            either: match rng.below(4) { 0 => Either::Num(rng.next() as i64), 1 => Either::Text(word(&mut rng)), 2 => Either::Both { n: -1, t: word(&mut rng) }, _ => Either::Nothing },
+            adjacent: match rng.below(3) { 0 => Adjacent::FirstOne(rng.next() as u8), 1 => Adjacent::SecondOne { deep: (0..rng.below(4)).map(|i| if i % 2 == 0 { None } else { Some(rng.next() as u16) }).collect() }, _ => Adjacent::Third },
+            pair: (rng.next() as i8, if rng.chance(1, 2) { None } else { Some(rng.range(-4000, 4000) as f64 / 16.0) }),
+            unit: Marker,
+            wrapped: Meters(rng.range(-100, 100) as f64 / 4.0),
+        };
+        ctx.begin(|| format!("derived\t{p:?}"));
+        ctx.count();
+        ctx.hit("family:derived-types-with-serde-attributes");
+        ctx.nontrivial(fnv(format!("{p:?}").as_bytes()));
+        let j = serde_json::to_value(&p).expect("serde_json serializes the derived type");
+        match guard(|| p.serialize(ValueSerializer)) {
+            Ok(Ok(g)) if same(&from_json(&j), &g) => {
+                ctx.hit("outcome:derived-type-coincides-with-serde_json");
+                ctx.sample("derived", || json!({"value": clip(format!("{p:?}"), 300), "image": clip(format!("{g:?}"), 300)}));
+            }
+            Ok(Ok(g)) => ctx.violation("C13 differs-from-serde_json derived-type", "a derived Serialize (skip_serializing_if / skip / rename / flatten / tagged enums) has an image that is not serde_json's".to_string(), json!({"value": clip(format!("{p:?}"), 600), "serde_json": clip(j.to_string(), 500), "observed": clip(format!("{g:?}"), 500)})),
+            Ok(Err(e)) => ctx.violation("C13 serializable-value-refused derived-type", format!("serialization failed: {e}"), json!({"value": clip(format!("{p:?}"), 600)})),
+            Err(p2) => ctx.violation("C13 panic derived-type", format!("serialization panicked: {p2}"), json!({"value": clip(format!("{p:?}"), 600)})),
+        }
+    }
+    ctx.rng = rng;
 }
 
 fn run(ctx: &mut Ctx) {
@@ -618,10 +756,16 @@ fn run(ctx: &mut Ctx) {
         // ten levels of nesting through every wrapper kind
         let mut deep = M::I128(i64::MAX as i128 + 12_345);
         for i in 0..12 {
-            deep = wrap_all(&deep).swap_remove(i % 13);
+            deep = wrap_all(&deep).swap_remove(i % 15);
         }
         judge(ctx, &deep, "deep-nesting");
     }
+    // all fields skipped; derived types with the usual serde attributes, judged against serde_json
+    if ctx.mine() {
+        judge(ctx, &M::Struct("Alpha", vec![("a", M::Skipped), ("b", M::Skipped)]), "empty-containers");
+        judge(ctx, &M::StructVariant("E", 0, "beta", vec![("a", M::Skipped)]), "empty-containers");
+    }
+    derived(ctx);
     // empty containers of every kind
     if ctx.mine() {
         for m in [M::Seq(vec![]), M::Tuple(vec![]), M::TupleStruct("Alpha", vec![]), M::TupleVariant("E", 0, "beta", vec![]), M::Map(vec![]), M::Struct("Alpha", vec![]), M::StructVariant("E", 0, "beta", vec![])] {
@@ -649,7 +793,8 @@ fn finish(m: &Merged, tier: Tier) -> Finish {
         exhaustive_part: "scalar x wrapper (x wrapper) products are complete".into(),
         ..Default::default()
     };
-    f.floors.push(floor(format!("serde data-model kinds exercised: {kinds}/30 (29 kinds + failing Serialize)"), kinds >= 30));
+    f.floors.push(floor(format!("serde data-model kinds exercised: {kinds}/31 (29 kinds + failing Serialize + skipped struct field)"), kinds >= 31));
+    f.floors.push(floor(format!("derived types compared with serde_json: {}", m.c("outcome:derived-type-coincides-with-serde_json")), m.c("outcome:derived-type-coincides-with-serde_json") >= tier.of(1_000, 10_000)));
     f.floors.push(floor(format!("faithful images: {}", m.c("outcome:faithful")), m.c("outcome:faithful") >= tier.of(100_000, 1_000_000)));
     f.floors.push(floor(format!("compared with serde_json: {}", m.c("outcome:compared-with-serde_json")), m.c("outcome:compared-with-serde_json") >= tier.of(5_000, 50_000)));
     f.floors.push(floor(format!("required errors observed: {}", m.c("outcome:error-as-required")), m.c("outcome:error-as-required") >= 1_000));
